@@ -144,19 +144,27 @@ class Engine:
         opts = opts or {}
         pc = list(pc) + list(opts.get('defs', []))
         hints = list(opts.get('hints', []))
+        for (qf, terms) in opts.get('pc_instances', []):
+            # forall-elimination done syntactically: the quantified formula must literally be one of the hypotheses
+            inst = z3.substitute_vars(qf.body(), *reversed(terms))
+            if any(qf.eq(x) for x in pc + list(self.base_hyps)):
+                pc = pc + [inst]
+            else:
+                hints = [inst] + hints
         for hi, h in enumerate(hints):
             ob = Obligation(f'{name}.hint{hi}', pc, h, kind, self.where, path=path, extra={'lemmas': opts.get('hint_lemmas')})
             self.obligations.append(ob)
-        ob = Obligation(name, pc + hints, goal, kind, self.where, path=path, extra={'lemmas': opts.get('lemmas')})
+        ob = Obligation(name, pc + hints, goal, kind, self.where, path=path, extra={'lemmas': opts.get('lemmas'), 'lemma_instances': opts.get('lemma_instances')})
         self.obligations.append(ob)
         return ob
 
     def feasible(self, pc):
+        """branch pruning (R6): only the quantifier-free part of the path condition, small budget; `cannot show infeasible` keeps the path"""
         self.stats['prune_checks'] += 1
         s = Solver()
         s.set('timeout', self.prune_timeout)
         s.add(*self.prune_hyps)
-        s.add(*pc)
+        s.add(*[c for c in pc if not _has_quantifier(c)])
         return s.check() != unsat
 
     # ------------------------------------------------------------------ conversions
@@ -166,6 +174,7 @@ class Engine:
         if isinstance(x, int): return V.VInt(IntVal(x))
         if isinstance(x, float): return V.VReal(RealVal(repr(x)))
         if isinstance(x, str): return V.VStr(StringVal(x))
+        if isinstance(x, bytes): return V.VBytes(self.to_bytes(p, x))
         if isinstance(x, tuple): return tup(*[self.to_val(p, e) for e in x])
         if isinstance(x, SVal): return x.t
         if isinstance(x, SInt): return V.VInt(x.t)
@@ -805,7 +814,12 @@ class Engine:
 
     def e_Dict(self, p, e, fr):
         if e.keys:
-            raise Unsupported('dict literal with items')
+            if not all(isinstance(k, ast.Constant) for k in e.keys):
+                raise Unsupported('dict literal with non-constant keys')
+            out = []
+            for q, vals in self.ev_many(p, e.values, fr):
+                out.append((q, self.new_obj(q, 'pydict', ('pydict', tuple((k.value, v) for k, v in zip(e.keys, vals))))))
+            return out
         return [(p, self.new_obj(p, 'dict', ('dict', K(Val, BoolVal(False)), K(Val, V.VNone), Empty(ValSeq))))]
 
     def e_JoinedStr(self, p, e, fr):
@@ -1046,6 +1060,8 @@ class Engine:
             return Bound(base, attr)
         if isinstance(base, ExcV):
             return Bound(base, attr)
+        if isinstance(base, PyType):
+            return Host('builtin', name=f'builtins.{base.name}.{attr}')
         raise Unsupported(f'attribute {attr} of {base!r}')
 
     def store_attr(self, p, base, attr, v):
@@ -1381,3 +1397,23 @@ def local_names(fn_node):
             walk(c)
     walk(fn_node)
     return [n for n in dict.fromkeys(names) if n not in nl]
+
+
+_QCACHE = {}
+
+
+def _has_quantifier(e):
+    k = e.get_id()
+    if k in _QCACHE:
+        return _QCACHE[k]
+    seen = set(); stack = [e]; r = False
+    while stack:
+        t = stack.pop()
+        if t.get_id() in seen:
+            continue
+        seen.add(t.get_id())
+        if z3.is_quantifier(t):
+            r = True; break
+        stack.extend(t.children())
+    _QCACHE[k] = r
+    return r
